@@ -61,7 +61,7 @@ Island(c) ==
 
 RankProfiles(dims) == {rk \in [1..(Len(dims) + 1) -> 1..3] : Admissible(dims, rk)}
 DimsSet == UNION {[1..d -> (IF Level = 1 THEN {2} ELSE {2, 3})] : d \in 1..(IF Level = 1 THEN 3 ELSE 4)}
-    \cup (IF Level = 1 THEN {<<2, 3>>, <<3, 2, 2>>} ELSE {})
+    \cup (IF Level = 1 THEN {<<2, 3>>, <<3, 2, 2>>, <<2, 2, 2, 2>>, <<2, 1, 2>>, <<1, 2>>} ELSE {<<2, 1, 2>>, <<1, 2, 2>>, <<2, 2, 1>>})
 Configs0 ==
     UNION {UNION {
         {[dims |-> dims, rg |-> rg, shift |-> 2, seed |-> seed, cplx |-> cplx, rx |-> rx, guess |-> "exact", r0 |-> rx] :
@@ -71,7 +71,10 @@ Configs0 ==
         \cup {[dims |-> dims, rg |-> rg, shift |-> 2, seed |-> seed, cplx |-> cplx, rx |-> rx, guess |-> "low", r0 |-> r0] :
             seed \in {3}, cplx \in BOOLEAN, r0 \in {r \in RankProfiles(dims) : \A k \in 1..Len(r) : r[k] <= rx[k]}}
         : rx \in RankProfiles(dims)} : dims \in DimsSet, rg \in {1, 2}}
-Configs == {c @@ [opreal |-> o] : c \in Configs0, o \in BOOLEAN} \ {c @@ [opreal |-> TRUE] : c \in {k \in Configs0 : ~k.cplx}}
+\* order 4 in the quick tier (interior MALS super-cores with both outer ranks > 1) only with a few rank profiles
+Keep(c) == Level > 1 \/ Len(c.dims) < 4 \/
+           (c.rx \in {MaxRanks(c.dims), <<1, 2, 2, 2, 1>>} /\ c.r0 \in {MaxRanks(c.dims), <<1, 2, 2, 2, 1>>} /\ c.rg = 2)
+Configs == {c \in ({c @@ [opreal |-> o] : c \in Configs0, o \in BOOLEAN} \ {c @@ [opreal |-> TRUE] : c \in {k \in Configs0 : ~k.cplx}}) : Keep(c)}
 
 CfgIx(c) == ISum(c.dims) * 3 + ISum(c.rx) * 5 + ISum(c.r0) * 7 + c.rg + c.seed + (IF c.cplx THEN 1 ELSE 0) + Len(c.guess) + (IF c.opreal THEN 2 ELSE 0)
 Init == cfg \in {c \in Configs : CfgIx(c) % NShards = Shard} /\ out = <<>>
